@@ -158,6 +158,17 @@ def run(pid, tier, seed=0, jobs=None, only=None, verbose=False):
     res = summarise(pid, tier, seed, outs, lemma_results, assumed, time.time() - t0, verbose)
     res['bounded'] = run_bounded(pid, tier)
     res['wall'] = time.time() - t0
+    if pid == 'C14':
+        from pyvc.audit_c14 import run_audit as audit14
+        sites = audit14(_REPO)
+        res['audit'] = dict(sites=sites, inferred={})
+        for s_ in sites:
+            st = {'ok': 'proved', 'violation': 'refuted', 'undecided': 'unknown'}[s_['verdict']]
+            e = dict(name='audit/' + s_['name'], kind='audit', clause=s_['detail'], instances=1, status=st,
+                     backends={'ast-audit'}, fn=audit14.__module__, model=s_['detail'], max_size=0)
+            res['by_name'][e['name']] = e
+            {'proved': res['proved'], 'refuted': res['refuted'], 'unknown': res['unknown']}[st].append(e)
+        res['n_ob'] = len(res['by_name'])
     if pid == 'C15':
         from pyvc.audit_c15 import run_audit
         sites, inferred = run_audit(_REPO)
